@@ -12,8 +12,9 @@ def sizes(lo, hi1, hi2=None):
     return [(a, b) for a in range(lo, hi1 + 1) for b in range(lo, hi2 + 1)]
 
 
-def kernel(name, contract, strength, finder=(), shards=None, finder_contract=None, **kw):
+def kernel(name, contract, strength, finder=(), shards=None, finder_contract=None, standin=None, **kw):
     g = KernelGroup(name, contract, strength, **kw)
+    g.standin = standin
     g.finder_sizes = list(finder)
     if finder_contract is not None:
         g.finder_contract = finder_contract      # bounded counterexample search uses this (pairwise-form) contract
@@ -190,3 +191,17 @@ from ..contracts.dir_p import DirProfileP  # noqa
 kernel('dir_py.P', DirProfileP(), 'P', finder=sizes(0, 2) + [(2, 3), (3, 2), (3, 3)], finder_contract=DirectionalityProfile())
 kernel('dir_pyx.P', DirProfileP(DIRPYX, 'spike_directionality_profiles_cython'), 'P', finder=sizes(0, 2) + [(2, 3), (3, 2), (3, 3)],
        finder_contract=DirectionalityProfile(DIRPYX, 'spike_directionality_profiles_cython'))
+from ..contracts.spike_p import SpikeProfileP  # noqa
+kernel('spike_py.P', SpikeProfileP(RI=False), 'P', standin='spike_py.B', finder=[(a, b, False) for (a, b) in sizes(1, 2)], finder_contract=SpikeProfile(), timeout_ms=60000)
+kernel('spike_ri_py.P', SpikeProfileP(RI=True), 'P', standin='spike_py.B', finder=[(a, b, True) for (a, b) in sizes(1, 2)], finder_contract=SpikeProfile(), timeout_ms=60000)
+kernel('spike_pyx.P', SpikeProfileP(PROF, 'spike_profile_cython', names=('t1', 't2'), RI=False), 'P', standin='spike_pyx.B',
+       finder=[(a, b, False) for (a, b) in sizes(1, 2)], finder_contract=SpikeProfile(PROF, 'spike_profile_cython', names=('t1', 't2')), timeout_ms=60000)
+kernel('spike_ri_pyx.P', SpikeProfileP(PROF, 'spike_profile_cython', names=('t1', 't2'), RI=True), 'P', standin='spike_pyx.B',
+       finder=[(a, b, True) for (a, b) in sizes(1, 2)], finder_contract=SpikeProfile(PROF, 'spike_profile_cython', names=('t1', 't2')), timeout_ms=60000)
+from ..contracts.add_p import AddPwlP, AddDiscreteP  # noqa
+kernel('addpwl_py.P', AddPwlP(), 'P', standin='addpwl_py.B', finder=sizes(1, 3), finder_contract=AddPwl(), timeout_ms=60000)
+kernel('addpwl_pyx.P', AddPwlP(ADD, 'add_piece_wise_lin_cython'), 'P', standin='addpwl_pyx.B', finder=sizes(1, 3),
+       finder_contract=AddPwl(ADD, 'add_piece_wise_lin_cython'), timeout_ms=60000)
+kernel('adddisc_py.P', AddDiscreteP(), 'P', standin='adddisc_py.B', finder=sizes(0, 3), finder_contract=AddDiscrete(), timeout_ms=60000)
+kernel('adddisc_pyx.P', AddDiscreteP(ADD, 'add_discrete_function_cython'), 'P', standin='adddisc_pyx.B', finder=sizes(0, 3),
+       finder_contract=AddDiscrete(ADD, 'add_discrete_function_cython'), timeout_ms=60000)
